@@ -1,35 +1,21 @@
 /-
 Line-protocol driver: one request per line, one answer per line.
 Fields are TAB separated; a string field is a space-separated list of decimal code points.
+Each model area contributes a handler `List String → Option String` (none = not mine).
 -/
-import PrqlModel.Model.Target
+import PrqlModel.Drv.Util
+import PrqlModel.Drv.Target
 namespace Drv
-open Model Gen
 
-def decStr (f : String) : List Char :=
-  (f.splitOn " ").filterMap fun w => w.toNat?.map Char.ofNat
-
-def encStr (s : List Char) : String :=
-  " ".intercalate (s.map fun c => toString c.toNat)
-
-def optDialect (f : String) : Option Dialect :=
-  if f == "-" then none else dialectFromStr f.toList
+def handlers : List (List String → Option String) := [
+  Drv.Target.handle
+]
 
 def handle (fields : List String) : String :=
-  match fields with
-  | ["ping"] => "pong"
-  | ["choose", opt, hasHeader, header] =>
-    let o := optDialect opt
-    let h := if hasHeader == "1" then some (decStr header) else none
-    match chooseDialect o h with
-    | .ok d => "ok " ++ d.name
-    | .error e => "err " ++ encStr e
-  | ["target_from_str", s] =>
-    match targetFromStr (decStr s) with
-    | .ok none => "ok -"
-    | .ok (some d) => "ok " ++ d.name
-    | .error _ => "err"
-  | _ => "bad-op"
+  if fields == ["ping"] then "pong" else
+  match handlers.findSome? (fun h => h fields) with
+  | some a => a
+  | none => "bad-op"
 
 partial def loop (h : IO.FS.Stream) (out : IO.FS.Stream) : IO Unit := do
   let line ← h.getLine
